@@ -844,7 +844,7 @@ func validCigar(t *rapid.T, seqLen, n int) []COp {
 	var ops []COp
 	left := seqLen
 	if rapid.IntRange(0, 3).Draw(t, "hclipL") == 0 {
-		ops = append(ops, COp{5, rapid.IntRange(1, 9).Draw(t, "hl")})
+		ops = append(ops, COp{5, rapid.IntRange(0, 9).Draw(t, "hl")}) // zero-length operations are legal ([0-9]+ in the grammar)
 	}
 	if left > 1 && rapid.IntRange(0, 3).Draw(t, "sclipL") == 0 {
 		l := rapid.IntRange(1, left-1).Draw(t, "sl")
@@ -864,7 +864,7 @@ func validCigar(t *rapid.T, seqLen, n int) []COp {
 		ops = append(ops, COp{rapid.SampledFrom([]byte{0, 0, 1, 7, 8}).Draw(t, "qop"), l})
 		left -= l
 		if left > 0 && rapid.Bool().Draw(t, "gap") {
-			ops = append(ops, COp{rapid.SampledFrom([]byte{2, 3, 6}).Draw(t, "gop"), rapid.IntRange(1, 1000).Draw(t, "gl")})
+			ops = append(ops, COp{rapid.SampledFrom([]byte{2, 3, 6}).Draw(t, "gop"), rapid.SampledFrom([]int{0, 1, 1, 2, 17, 1000}).Draw(t, "gl")})
 		}
 	}
 	if left > 0 {
@@ -874,7 +874,7 @@ func validCigar(t *rapid.T, seqLen, n int) []COp {
 		ops = append(ops, COp{4, tailS})
 	}
 	if rapid.IntRange(0, 3).Draw(t, "hclipR") == 0 {
-		ops = append(ops, COp{5, rapid.IntRange(1, 9).Draw(t, "hr")})
+		ops = append(ops, COp{5, rapid.IntRange(0, 9).Draw(t, "hr")})
 	}
 	return ops
 }
